@@ -67,6 +67,33 @@ def rootGeom (cfg : RootCfg) (orig : Attrs) (bb0 : BoundingBox) (a : Attrs) : Op
       a.insert cs!"viewBox"
         (fstr bb.x1 ++ [' '] ++ fstr bb.y1 ++ [' '] ++ fstr w ++ [' '] ++ fstr h)
 
+/-- a value the f32 arithmetic of the code holds exactly: dyadic with a small numerator -/
+def f32Exact (x : Rat) : Bool :=
+  decide (x.num.natAbs < 2 ^ 20) && decide (x.den ∣ 2 ^ 10)
+
+/-- exactness monitor for the dimension derived from the aspect ratio: the code computes
+    `v / (w / h)` (or `v * (w / h)`) in f32, the model on exact rationals; the two are only compared
+    digit for digit when the ratio and the result are both held exactly (DESIGN §3.2) -/
+def derivedExact (cfg : RootCfg) (orig : Attrs) (bbox : Option BoundingBox) : Bool :=
+  match bbox with
+  | none => true
+  | some bb0 =>
+    let bb := extent cfg bb0
+    let w := bb.width
+    let h := bb.height
+    if !(decide (0 < w) && decide (0 < h)) then true
+    else
+      match orig.get cs!"width", orig.get cs!"height" with
+      | some ow, none =>
+        match splitUnit ow with
+        | some (v, _) => f32Exact (w / h) && f32Exact (v / (w / h))
+        | none => true
+      | none, some oh =>
+        match splitUnit oh with
+        | some (v, _) => f32Exact (w / h) && f32Exact (v * (w / h))
+        | none => true
+      | _, _ => true
+
 /-- `write_root_svg`: attributes of the emitted root element -/
 def rootAttrs (cfg : RootCfg) (orig : Attrs) (bbox : Option BoundingBox) : Option Attrs :=
   match bbox with
